@@ -71,7 +71,7 @@ bool with_expr(World<T>& W, const Shape& sh, K&& k) {
       return false;
     }
   }
-  if constexpr (R == 2 && (MENU & (M_ASG | M_RED2)) != 0) {
+  if constexpr (R == 2 && (MENU & (M_ASG | M_RED2 | M_CMP)) != 0) {
     if (sh.Ol.size() == 2 && sh.Wl.empty() && sh.Sl.empty()) {
       if (!leaf_ok<1>(W, sh.Ol[0]) || !leaf_ok<1>(W, sh.Ol[1])) return false;
       Array<1, T>& a = W.views[sh.Ol[0]].a1; Array<1, T>& b = W.views[sh.Ol[1]].a1;
